@@ -9,18 +9,27 @@ Spec:   ListenerHttpReq.tla (requirement machine: per request class the
         the other verbs transcribed stage by stage, with the suspected defects
         as switches), ListenerHttp.tla (sequences of requests against handler
         threads, a bounded indication queue, a callback the tester may hold,
-        peers that keep a waiting connection open), ListenerHttpTrace.tla.
+        peers that keep a waiting connection open), ListenerHttpLex.tla
+        (alphabets of lexeme classes at the positions of the indication whose
+        text the CIM-XML reader converts: type names, numbers, booleans,
+        datetimes, char16, ARRAYSIZE, EmbeddedObject, embedded object text),
+        ListenerHttpTrace.tla.
 TLC:    all 294 912 request classes through the repaired pipeline, all
-        sequences of 3 (4) requests over a reduced alphabet; bounded queue
-        (capacity 1; thorough also 2) with a held callback: all histories of
-        4 (5) requests, TLC prints the tester scripts that force the
-        queue.Full branch; six regression configurations (the tree as read,
-        a non-threaded server, a missing `return` after the queue-full
-        answer) must fail.
+        sequences of 3 (4) requests over a reduced alphabet; every lexeme
+        class at every converted position (368), alone and with one more
+        deviation, followed by a valid indication; bounded queue (capacity 1;
+        thorough also 2) with a held callback: all histories of 4 (5)
+        requests, TLC prints the tester scripts that force the queue.Full
+        branch; eight regression configurations (the tree as read, a
+        non-threaded server, a missing `return` after the queue-full answer,
+        conversion guards that accept a trailing line feed / only look at the
+        beginning of the text) must fail.
 Binding: a real WBEMListener on a loopback port; raw bytes written with the
         socket module, answers read with an own minimal HTTP reader; request
-        classes enumerated by TLC (<= 2 deviations from the valid request),
-        TLC-simulated and seeded random histories, seeded byte-level mutants
+        classes enumerated by TLC (<= 2 deviations from the valid request;
+        every lexeme class at every converted position, also combined with
+        every single deviation of another dimension), TLC-simulated and
+        seeded random histories, seeded byte-level mutants
         inside the classes; the TLC-emitted tester scripts (requests, hold /
         release the callback, give up on a waiting connection) on listeners
         with max_ind_queue_size 1 / 2; every history ends with a valid
@@ -49,6 +58,14 @@ REGRESSIONS = (
     ("ListenerHttpQueueNoReturn.cfg", "InvExactlyOneResponse",
      "no `return` after the queue.Full error response (bounded queue, "
      "callback held)"),
+    ("ListenerHttpLegacyLexEol.cfg", "InvNoDroppedConnection",
+     "'$' of the numeric-type-name guard matches before a final line "
+     "terminator: type_from_name() ValueError leaves the reader (tree as "
+     "read)", "ListenerHttpLex"),
+    ("ListenerHttpLexPrefix.cfg", "InvNoDroppedConnection",
+     "guards in front of type_from_name() / int(x, 16) that only look at "
+     "the beginning of the text: ValueError leaves the reader",
+     "ListenerHttpLex"),
 )
 
 # quick tier: how many of the TLC-emitted bounded-queue scripts are replayed
@@ -97,9 +114,16 @@ def model_checks(ctx, quick):
         if not seen:
             raise vlib.MachineryError("%s printed no tester script" % cfg)
     ctx.extra["queue_full_scripts_from_tlc"] = len(scripts)
+    # lexeme classes at the positions the CIM-XML reader converts
+    ctx.tlc("ListenerHttpLex", "ListenerHttpLex.cfg",
+            label="every lexeme class at every converted position of the "
+            "indication (alone and with one more deviation), followed by a "
+            "valid indication")
     sens = []
-    for cfg, inv, what in REGRESSIONS:
-        rr = ctx.tlc("ListenerHttp", cfg, must_pass=False, count=False,
+    for reg in REGRESSIONS:
+        cfg, inv, what = reg[:3]
+        rr = ctx.tlc(reg[3] if len(reg) > 3 else "ListenerHttp", cfg,
+                     must_pass=False, count=False,
                      label="regression config (must fail): " + what)
         if rr.violated != inv:
             raise vlib.MachineryError("%s did not violate %s: %s" %
@@ -115,13 +139,16 @@ def tlc_classes(ctx):
                 "deviations from the valid request")
     one = [H.cls_of(t) for t in vlib.unset(r.printed("CLS1")[0][1])]
     two = [H.cls_of(t) for t in vlib.unset(r.printed("CLS2")[0][1])]
-    if len(one) != 39 or len(two) < 500:
-        raise vlib.MachineryError("class enumeration: %d/%d" %
-                                  (len(one), len(two)))
-    return one, two
+    lex = [H.cls_of(t) for t in vlib.unset(r.printed("LEX1")[0][1])]
+    if len(one) != 39 or len(two) < 500 or len(lex) < 300:
+        raise vlib.MachineryError("class enumeration: %d/%d/%d" %
+                                  (len(one), len(two), len(lex)))
+    return one, two, lex
 
 
-def random_class(rng, p):
+def random_class(rng, p, lex=()):
+    """`lex`: the TLC-enumerated lexeme classes; a body deviation is one of
+    them in a third of the cases"""
     alph = {
         "verb": ["known", "unknown"],
         "accept": ["absent", "bad", "fold"],
@@ -137,9 +164,12 @@ def random_class(rng, p):
                  "missingParam", "dupParam", "nullParam", "nonInstance",
                  "empty"]}
     c = dict(H.VALID)
-    for d in H.DIMS:
+    for d in alph:
         if rng.random() < p:
             c[d] = rng.choice(alph[d])
+            if d == "body" and lex and rng.random() < 0.34:
+                x = rng.choice(lex)
+                c.update(body=x["body"], lpos=x["lpos"], lex=x["lex"])
     return c
 
 
@@ -171,8 +201,20 @@ def plan_queue(ctx, quick, scripts):
 
 def plan(ctx, quick, scripts):
     rng = ctx.rng
-    one, two = tlc_classes(ctx)
+    one, two, lex = tlc_classes(ctx)
+    ctx.extra["lexeme_classes_from_tlc"] = len(lex)
     hs = plan_queue(ctx, quick, scripts)
+    # every lexeme class at every converted position, then a valid indication
+    for c in lex:
+        for _ in range(3 if quick else 12):
+            hs.append(("tlc-lexeme", [c, dict(H.VALID)]))
+    # ... combined with every single deviation in another dimension
+    # (quick: a seeded sample)
+    others = [c for c in one if H.deviations(c) and c["body"] == "validExport"]
+    combos = [dict(o, body=c["body"], lpos=c["lpos"], lex=c["lex"])
+              for c in lex for o in others]
+    for c in (rng.sample(combos, 250) if quick else combos):
+        hs.append(("tlc-lexeme2", [c, dict(H.VALID)]))
     for c in one:
         for _ in range(4 if quick else 30):
             hs.append(("tlc-class1", [c, dict(H.VALID)]))
@@ -195,7 +237,7 @@ def plan(ctx, quick, scripts):
     ctx.extra["tlc_behaviours_replayed"] = nb
     for _ in range(120 if quick else 2500):
         n = rng.randint(1, 4)
-        seq = [random_class(rng, rng.choice([0.1, 0.25, 0.5]))
+        seq = [random_class(rng, rng.choice([0.1, 0.25, 0.5]), lex)
                for _ in range(n)]
         seq.append(dict(H.VALID))
         hs.append(("random-sequence", seq))
@@ -207,7 +249,7 @@ def plan(ctx, quick, scripts):
         hs.append(("mutant", [c, dict(H.VALID)]))
     if not quick:
         for _ in range(6000):
-            hs.append(("random-class", [random_class(rng, 0.5),
+            hs.append(("random-class", [random_class(rng, 0.5, lex),
                                         dict(H.VALID)]))
     return hs
 
@@ -288,8 +330,15 @@ def blame(ev, prev):
             return "%s:clen=%s" % (o["outcome"], c["clen"])
         if c["body"].endswith("U"):
             return "%s:body=wrongVersionU" % o["outcome"]
+        if c["lpos"] != "none" and c["clen"] == "ok":
+            # (the position is in the description of the finding)
+            return "%s:body=%s,lex=%s" % (o["outcome"], c["body"], c["lex"])
         return "%s:%s" % (o["outcome"],
-                          ",".join("%s=%s" % (d, c[d]) for d in dev))
+                          ",".join("%s=%s" % (d, c[d]) for d in dev
+                                   if d not in ("lpos", "lex")))
+    if c["lpos"] != "none":
+        return "status=%d,%s" % (o["status"], "body=lexeme" if
+                                 c["body"] == "lexeme" else "valid-lexeme")
     return "status=%d" % o["status"]
 
 
@@ -409,10 +458,23 @@ def run(ctx):
                     for e, i in zip(h.events, h.info) if e["kind"] == "req"])
     ctx.assumptions += [
         "request space decided per class (verb 3 x 5 headers 4/4/3/4/4 x "
-        "Content-Length 8 x body 16); inside a class the harness samples "
+        "Content-Length 8 x body 16 [+ lexeme classes]); inside a class the "
+        "harness samples "
         "(seeded): header-name case, order, extra headers, HTTP/1.0|1.1, "
         "path, indication content, message id, byte-level mutants that an "
         "independent XML parser (expat) rejects",
+        "bodies that are well-formed and follow the DTD's element structure "
+        "but carry a lexeme outside the language of one attribute / value "
+        "position the reader converts are decided per (position, lexeme "
+        "class): 26 positions x the classes of the position's language (368 "
+        "pairs, enumerated by TLC); members of the language by every reading "
+        "of DSP0201/DSP0004 (hex, explicit sign, upper-case boolean words, "
+        "intervals, reals with fraction/exponent) must be accepted and "
+        "delivered; for every other lexeme any ONE well-formed answer "
+        "(success, export ERROR, 4xx/5xx + CIMError) is accepted - a lenient "
+        "reader is not a violation, a dropped connection is; inside a class "
+        "the harness samples spellings (seeded); PARAMVALUE/PARAMTYPE cannot "
+        "occur in an export request (DTD-invalid there: class wrongElement)",
         "request lines are syntactically valid HTTP/1.x (HTTP/0.9 and bad "
         "version tokens are not 'HTTP requests' of the quantifier); "
         "Expect/Transfer-Encoding are not driven",
@@ -453,6 +515,8 @@ def replay(rep):
         reqs = []
         for cls, x in zip(case["classes"], case["requests_b64"]):
             r = H.Req()
+            cls.setdefault("lpos", "none")     # replays recorded before the
+            cls.setdefault("lex", "none")      # lexeme dimension existed
             r.cls = cls
             r.raw = base64.b64decode(x["raw"])
             r.marker, r.msgid = x["marker"], x["msgid"]
